@@ -208,11 +208,11 @@ var macAdapter = &adapter{
 
 var signatureAdapter = &adapter{
 	name: "signature", class: keys.Signature,
-	// SLH-DSA signing is slow (40 ms .. 2 s): it gets 1/37 of the draws.
+	// SLH-DSA signing is slow (40 ms .. 2 s): it gets 1/73 of the draws.
 	types: func() []string {
 		var out []string
 		for _, t := range []string{"Ecdsa", "Ed25519", "RsaSsaPkcs1", "RsaSsaPss", "MlDsa", "CompositeMlDsa"} {
-			out = append(out, t, t, t, t, t, t)
+			out = append(out, t, t, t, t, t, t, t, t, t, t, t, t)
 		}
 		return append(out, "SlhDsa")
 	}(),
